@@ -306,6 +306,15 @@ class Release(BaseProduct):
         return productmd.common.get_minor_version(self.version)
 
 
+def _parse_timestamp(value):
+    # integer timestamps are read exactly; going through float would
+    # round anything a double can't hold
+    try:
+        return int(value)
+    except ValueError:
+        return int(float(value))
+
+
 # Note: [tree]/variants is read/written in the Variants class
 class Tree(productmd.common.MetadataBase):
 
@@ -354,7 +363,7 @@ class Tree(productmd.common.MetadataBase):
             self.platforms.add(i)
 
         if parser.has_option("general", "timestamp"):
-            self.build_timestamp = int(parser.getfloat("general", "timestamp"))
+            self.build_timestamp = _parse_timestamp(parser.get("general", "timestamp"))
         else:
             self.build_timestamp = -1
 
@@ -364,7 +373,7 @@ class Tree(productmd.common.MetadataBase):
         self.arch = parser.get(section, "arch")
         self.platforms = set([i for i in parser.get(section, "platforms").split(",") if i])
         if section == self._section:
-            self.build_timestamp = int(parser.getfloat(self._section, "build_timestamp"))
+            self.build_timestamp = _parse_timestamp(parser.get(self._section, "build_timestamp"))
         else:
             self.build_timestamp = -1
 
